@@ -746,7 +746,12 @@ func propMWU(a *Analysis, r *Registry, which string) {
 				anchorFail("tieCorrection: expected one element read per iteration")
 			}
 			tenv.Set("tie", S.atomRF(idxs[0].ID), nil)
-			b.LoopSystem(rB, "stats.tieCorrection/recurrence", b.pos(tc), fc, rv, tenv, []recSpec{{"t", "0", "t+tie*tie*tie-tie"}})
+			// (LoopSystem lets an integer counter play a role offset by one: the result must be the
+			// role itself, or an accumulator started at 1 would pass as `t` = accumulator − 1)
+			if vars := b.LoopSystem(rB, "stats.tieCorrection/recurrence", b.pos(tc), fc, rv, tenv, []recSpec{{"t", "0", "t+tie*tie*tie-tie"}}); vars != nil {
+				b.EqRF(rB, "stats.tieCorrection/result", b.pos(tc), rv, vars["t"], "returns the accumulated sum")
+				b.FullScan("C-scan coverage", "stats.tieCorrection/every-rank", b.pos(tc), fc, idxs[0].Args[1], S.MakeFn("len", idxs[0].Args[0]))
+			}
 			b.EqRF(rB, "stats.tieCorrection/source", b.pos(tc), idxs[0].Args[0], tenv.Vars["ties"].RF, "iterates over the tie vector")
 		})
 	}
